@@ -5,10 +5,12 @@ import Tahoe.Immutable.LemmasHelperClient
 `Tahoe/Immutable/Helper.lean` (helper side) and `Tahoe/Immutable/HelperClient.lean` (client-side reader),
 lemmas in `Tahoe/Immutable/LemmasHelper*.lean`).
 
-PARTIAL: network and file-system timing is not modelled (a disturbance is "the n-th `read_encrypted`
-call fails" or "a failure after the fetch completed"; a crash that loses buffered appends only shortens
-the partial file, which the prefix invariant covers); encoding is an abstract function of (ciphertext,
-parameters); one client reader per attempt.
+PARTIAL: wall-clock timing and several concurrent clients for one storage index are not modelled; encoding is
+an abstract function of (ciphertext, parameters).  A disturbance of an attempt is "the n-th `read_encrypted`
+call fails", "the helper dies there and only a prefix of the partial file survives" (`Fault.crash`) or "a
+failure after the fetch completed"; every theorem about attempts quantifies over all lists of them.  16
+theorems, none `_partial`; definitions marked "NOT model code" exist only for the counterexample theorems
+that show what a seeded change broke.
 
 ## Coverage of the statement
 
